@@ -177,6 +177,8 @@ CheckClass(M, TS, ev) ==
               \* the property demands "not decided => fails", not "decided => succeeds": an engine that
               \* meets the unevaluable condition before the deciding operand may fail (DESIGN 4/C01 rule R2)
               ELSE IF ev.errk = "cond" /\ ref = "T" /\ TouchedE(M, TS, ev.ctx, ev.o, ev.r) THEN <<"OK_ERR_DECIDED", ref>>
+              \* KF-24: with shared iterators on, a request that nobody cancelled occasionally answers "Request Cancelled"
+              ELSE IF ev.errk = "cancel" /\ "shi" \in DOMAIN ev /\ ev.shi /\ "res" \notin DOMAIN ev THEN <<"KF_SpuriousCancelSharedIterator", ref>>
               ELSE <<"BAD_ERR", ref>>
          [] OTHER -> <<"BAD_EVENT", ref>>
 
